@@ -172,7 +172,7 @@ class Run:
             "wall_s": round(time.time() - self.t0, 2),
             "violations": len(new),
         }
-        d = os.path.join(VERIF, "evidence")
+        d = os.environ.get("PCV_EVIDENCE_DIR") or os.path.join(VERIF, "evidence")
         os.makedirs(d, exist_ok=True)
         tmp = os.path.join(d, self.pid + ".json.tmp")
         with open(tmp, "w") as f:
